@@ -32,11 +32,11 @@ class ExprMixin:
             f = forall(list(self.bound), f)
         return f
 
-    def hazard(self, kind, safe, node=None, what="", state=None):
+    def hazard(self, kind, safe, node=None, what="", state=None, may=False):
         if z3.is_true(safe):
             return
         cur = getattr(self, "cur_state", None)
-        self.hz.append(Hazard(kind, self._wrap(safe), node, what, state, pc_len=len(cur.pc) if (cur is not None and state is None) else None))
+        self.hz.append(Hazard(kind, self._wrap(safe), node, what, state, pc_len=len(cur.pc) if (cur is not None and state is None) else None, may=may))
 
     def fact(self, st, f):
         st.assume(self._wrap(f))
